@@ -16,7 +16,7 @@ HOOK_COMMITS = []
 
 def lemmas():
     out = []
-    for mod in ("reg_c12", "reg_steps", "reg_api", "reg_e", "reg_text"):
+    for mod in ("reg_c12", "reg_steps", "reg_api", "reg_e", "reg_text", "reg_os"):
         m = __import__(mod)
         out += m.lemmas()
     import props
